@@ -781,7 +781,19 @@ pub fn run_parent(def: &PropertyDef, tier: Tier, seed: u64, exe: &Path) -> RunRe
             }
         };
         match status {
-            None => inconclusive.push(format!("shard {shard}: wall-clock budget exceeded")),
+            None => {
+                // out of time - but what the shard had established, or was
+                // shrinking, when it was stopped still counts
+                if let Ok(txt) = std::fs::read_to_string(partial_path(&cur)) {
+                    if let Ok(vs) = serde_json::from_str::<Vec<Value>>(&txt) {
+                        violations.extend(vs);
+                    }
+                }
+                if let Some(v) = recover_failure(def, &cur) {
+                    violations.push(v);
+                }
+                inconclusive.push(format!("shard {shard}: wall-clock budget exceeded"));
+            }
             Some(st) if st.success() => {
                 match std::fs::read_to_string(&report)
                     .ok()
